@@ -239,6 +239,24 @@ def check(run, views, tier):
                     run.ob("R-COSTSITES", "%s: %s on %s" % (fn.split("::", 1)[-1], name.split("::")[-1], base[:40]), cls is not None,
                            "%s on accumulated parser state (%s) with no bounding guard, not amortised by a pop/take, and no nesting limit: cost is amplified by nesting / width [%s]" % (
                                name, oty[:60], " && ".join(cshow(c) for c in conds)[-160:]), site(body, node), key="R-COSTSITES|%s|%s|%s" % (fn, name.split("::")[-1], base[:40]))
+        # a loop that is left only through `return` never shows up as a completed loop in the path summaries: take the census from the HIR
+        classified_lines = set()
+        for fn in fns:
+            try:
+                for p in paths_of(F.hir[fn]):
+                    for t, _c in all_calls(p):
+                        if t[1] in ("<for>", "<loop>") and len(t) > 3 and isinstance(t[3], dict):
+                            classified_lines.add((fn, t[3].get("ln")))
+            except TooManyPaths:
+                pass
+        from ..facts import walk as _walk
+        for fn in fns:
+            for n in _walk(F.hir[fn]["body"]):
+                if n.get("k") == "loop" and (fn, n.get("ln")) not in classified_lines and "desugar:Await" not in (n.get("exp") or []):
+                    n_sites += 1
+                    run.ob("R-COSTSITES", "%s: loop at line %s is classified" % (fn.split("::", 1)[-1], n.get("ln")), fn.endswith("::parse_header_attributes"),
+                           "a `%s` loop that is only left by `return`: its iteration count is not tied to one input token (retry / rescan loops make the cost of one token "
+                           "depend on its content)" % (n.get("src") or "loop"), site(F.hir[fn], n), key="R-COSTSITES|%s|return-only-loop" % fn)
         run.floor("R-COSTSITES", n_sites, 12, "cost sites (loops and linear-cost calls) in the parse cone")
         run.floor("R-COSTSITES", len(fns), 35 if "async" in F.features else 20, "functions in the parse cone")
         run.meta.setdefault("coverage_extra", {})["classes_" + cfg] = {str(k): v for k, v in classes.items()}
